@@ -304,11 +304,31 @@ def judge(case, col):
     return out
 
 
+KW_ALPHABET = ['a', "'", '"', '\\', ' ', '{', ':', 'n', '%', ',']
+KW_TEMPLATES = ['CREATE MODEL m PREDICT p USING k = {v}', 'CREATE MODEL m FROM int1 (select 1) PREDICT p USING k = {v}, j = 1',
+                'RETRAIN m USING k = {v}', 'FINETUNE m FROM int1 (select 1) USING k = {v}', 'SELECT * FROM t USING k = {v}',
+                'SELECT * FROM t JOIN m USING k = {v}, j = 2', "CREATE AGENT a USING model = 'm', k = {v}",
+                "CREATE SKILL s USING type = 't', k = {v}", "CREATE CHATBOT c USING database = 'd', agent = 'a', k = {v}",
+                'CREATE KNOWLEDGE_BASE kb USING model = m, storage = s.t, k = {v}', 'CREATE ML_ENGINE e FROM h USING k = {v}',
+                'UPDATE AGENT a SET k = {v}', 'UPDATE SKILL s SET k = {v}', 'UPDATE CHATBOT c SET k = {v}',
+                "CREATE DATABASE d WITH ENGINE = 'x', PARAMETERS = {\"k\": {v}}", 'CREATE VIEW v FROM int1 (select {v})',
+                'EVALUATE acc FROM (select 1) USING k = {v}', 'CREATE ANOMALY DETECTION MODEL m PREDICT p USING k = {v}']
+
+
 @st.composite
 def cases(draw, pool='lite', tame=True):
     d = draw(st.sampled_from(corpus.DIALECTS))
     gg = grammar.get(d)
-    mode = draw(st.sampled_from(['grammar', 'grammar', 'grammar', 'mut-corpus', 'mut-grammar']))
+    mode = draw(st.sampled_from(['grammar', 'grammar', 'grammar', 'mut-corpus', 'mut-grammar'] * 3 + ['kw-values']))
+    if mode == 'kw-values':
+        # option lists (USING / SET / PARAMETERS) have a printer of their own: string values made of the characters
+        #  that need escaping, written as a single- or double-quoted literal of the mindsdb dialect
+        val = ''.join(draw(st.lists(st.sampled_from(KW_ALPHABET), min_size=0, max_size=4)))
+        if draw(st.booleans()):
+            lit = "'" + val.replace('\\', '\\\\').replace("'", draw(st.sampled_from(["\\'", "''"]))) + "'"
+        else:
+            lit = '"' + val.replace('\\', '\\\\').replace('"', '\\"') + '"'
+        return {'dialect': 'mindsdb', 'sql': draw(st.sampled_from(KW_TEMPLATES)).replace('{v}', lit), 'origin': mode}
     if mode == 'grammar':
         toks = draw(gg.sentence(pool=pool, tame=tame))
     else:
